@@ -286,6 +286,13 @@ def _note_parts(tier):
             byid[a_].tie_next, byid[b_].tie_prev = byid[b_], byid[a_]
         return p
     out.append(("tie_chain_of_three_notes_with_gaps", broken_chain))
+    # two notes already tied to each other, the FIRST of which is longer than its bar: splitting it at the barline keeps the tie to the second
+    def tied_pair_first_crosses_barline():
+        p = G.build_part("P", 2, notes=[("a", 0, 12, "C", None, 4, 1, 1), ("b", 12, 4, "C", None, 4, 1, 1), ("lo", 0, 16, "E", None, 3, 2, 1)], measures=[(0, 8), (8, 16)])
+        byid = {n.id: n for n in p.iter_all(sc.Note)}
+        byid["a"].tie_next, byid["b"].tie_prev = byid["b"], byid["a"]
+        return p
+    out.append(("tied_pair_whose_first_note_crosses_a_barline", tied_pair_first_crosses_barline))
     # a voice entering after a silence whose length is not one notated value (5 sixteenths; 17 thirty-seconds)
     out.append(("voice_enters_after_a_composite_silence", lambda: G.build_part("P", 8, notes=[("a", 10, 22, "C", None, 4, 1, 1), ("b", 32, 32, "D", None, 4, 1, 1), ("c", 81, 15, "E", None, 4, 1, 1), ("lo", 0, 96, "C", None, 3, 2, 1)],
                                                                               measures=[(0, 32), (32, 64), (64, 96)])))
